@@ -43,6 +43,8 @@ def _readctx_of(facts, body):
 
 def _is_empty_clock(t):
     t = drop_lv(t)
+    if t == ('const', 'Default::default()', 'verif'):
+        return True
     if t[0] == 'call' and call_name(t) in ('default', 'new') and (cinfo(t[1])['self'] or '').endswith('VClock'):
         return True
     if t[0] == 'call' and call_name(t) in ('default',) and not t[2]:
@@ -99,10 +101,36 @@ def _keyed_read(ctx, facts, adt, name, body, r, sub, props, inst):
                 if op['k'] in ('copy', 'move') and not op['place']['proj']:
                     return rc.reaching_terms(op['place']['local'], bb)
                 return {it.operand(it.in_states[bb].copy(), op)} if bb in it.in_states else {('top',)}
+            def unwrapped(ts):
+                """`opt.unwrap_or_default()` whose receiver is a `match` written out (None | Some(x) arms): the arms that
+                survive the assumption decide — Some(x) gives x, None gives the default."""
+                out = set()
+                for t in ts:
+                    t1 = drop_lv(t)
+                    done_ = False
+                    if is_call(t1, ('unwrap_or_default', 'unwrap_or', 'unwrap_or_else', 'unwrap', 'expect')) and t1[2] and drop_lv(t1[2][0])[0] in ('phi', 'agg'):
+                        for b2, c2 in it.calls.items():
+                            if drop_lv(c2.term) == t1 and b2 in rc.reachable:
+                                alts = set()
+                                for a_ in rc.arg_terms(b2, 0):
+                                    alts |= set(phi_alts(drop_lv(a_)))
+                                if alts and all(is_variant(a_, 'option::Option', 'Some') or is_variant(a_, 'option::Option', 'None') for a_ in alts):
+                                    for a_ in alts:
+                                        if is_variant(a_, 'option::Option', 'Some'):
+                                            out.add(a_[3][0][1])
+                                        elif call_name(t1) == 'unwrap_or_default':
+                                            out.add(('const', 'Default::default()', 'verif'))
+                                        else:
+                                            out.add(t)
+                                    done_ = True
+                                break
+                    if not done_:
+                        out.add(t)
+                return out
             for a in terms_of(ops['add_clock']):
                 if drop_lv(a) != replica:
                     errs.append('add_clock is %s, expected the replica clock' % fmt(a, 5))
-            for t in terms_of(ops['rm_clock']):
+            for t in unwrapped(terms_of(ops['rm_clock'])):
                 t = drop_lv(inline_option_maps(facts, t))
                 ev = elem_value_of(t)
                 is_elem = bool(ev and param_path(ev[0]) == (1, (r['entries'],)) and ev[2] == 'value' and tuple(ev[3]) == tuple(sub)
@@ -188,7 +216,13 @@ def ctx_read(ctx):
                         errs.append('per-item read does not range over the entries')
             vv = drop_lv(inline_option_maps(facts, val))
             if name == 'read':
-                ok_v = is_call(vv, 'collect') and vv[2] and whole_iteration_over(vv[2][0], 1, (r['entries'],)) and iter_source(vv[2][0])[1] == 'keys' and not iter_source(vv[2][0])[2]
+                from .loops import collect_source
+                raw = interp(facts, body).ret   # the un-peeled aggregate keeps the identity of a loop-filled local
+                while raw[0] in ('lv', 'at'):
+                    raw = raw[3] if raw[0] == 'lv' else raw[2]
+                rawval = dict(raw[3]).get('val', val) if raw[0] == 'agg' and len(aggs) == 1 and where is body else val
+                cs = collect_source(facts, body, interp(facts, body), inline_option_maps(facts, rawval))
+                ok_v = cs is not None and whole_iteration_over(cs, 1, (r['entries'],)) and iter_source(cs)[1] == 'keys' and not iter_source(cs)[2]
                 if not ok_v:
                     errs.append('val is %s, expected every key of entries' % fmt(vv, 4))
             elif name in ('len', 'is_empty'):
